@@ -129,6 +129,8 @@ func checkC13(c *Ctx) {
 	checkSentinelParity(c, "C13.R6")
 	checkRetentionParity(c, "C13.R7")
 	checkErrorPrecedence(c, "C13.R8")
+	c.Rule("C13.R9", "the memory store offers what SQLite offers: its dequeue scan index keeps every stored message (the analysis of C05.R6, claimed here because a message that drops out of the index is still listed as queued but never dequeued, while SQLite selects from the table itself)")
+	checkOrderIndexIntegrity(c, "C13.R9")
 }
 
 // requestFieldOf: the request field (or Duration parameter) a value derives from, through phis/cells/conversions.
